@@ -114,6 +114,13 @@ CLAIMS = {
         "note": "Fault kinds are enumerated by forking (bounded shape); only the call sites reached by the template are covered. Trusted: E2 std models. Outside: IF_DATA interplay, the error_or_log sites of element parsers not in the template.",
         "technique": "bounded symbolic execution of MIR (fork per fault kind, symbolic strictness in the helper harnesses), native replay",
     },
+    "C19": {
+        "engine": "E2-mirsym",
+        "text": "The in-tree generator behind a2ml_specification! is run on the current tree for two fixed invocations that together use every A2ML construct it accepts; the generated data structures, parse()/store() functions and A2ML text constants are compiled into a2lfile's scratch copy and executed by the symbolic executor from MIR: (a) store_to_ifdata then load_from_ifdata is the identity for every value of every scalar member (solver variables) and every member kind; (b) typed value -> store -> write (A2ML text = generated constant) -> strict load -> decode gives an equal value, so the constant is accepted by the library's A2ML parser and describes the same structure; (c) parsed instance -> decode -> store -> write reproduces model and text; (d) IF_DATA valid under a different in-file definition (12 mismatch shapes) decodes to None without panic.",
+        "design_ref": "DESIGN.md section 4 C19",
+        "note": "Bounded: two invocations, repeated members <= 2, strings <= 2 chars, the listed mismatch family. Trusted: rustfmt and proc_macro2's fallback (generator run outside the compiler), E2 std models (HashMap as association list). Outside: the proc-macro glue in a2lmacros/src/lib.rs, other invocations, integer sequences (generated code does not compile).",
+        "technique": "SMT-based bounded symbolic execution of the MIR of freshly generated code (z3 bit-vectors/FP for scalar members, fork per member kind / instance), native replay",
+    },
     "C18": {
         "engine": "E2-mirsym",
         "text": "For a fixed family of five A2ML definitions the whole loader (A2ML capture, runtime A2ML parser, type-directed IF_DATA parser, fallback parser, writer, ifdata_cleanup) is executed by the symbolic executor on a conforming and on a deviating instance, with LF and CRLF line ends: validity flag is exact, every token survives load and write, and ifdata_cleanup removes exactly the invalid blocks; definitions whose sequence element matches zero tokens must not make loading spin.",
@@ -125,7 +132,6 @@ CLAIMS = {
 
 _PENDING = "check not built yet in this revision of /verif (see DESIGN.md section 7 for the order of work)"
 _NA_FIXED = {
-    "C19": "the typed IF_DATA code exists only after a2ml_specification! is expanded in a client crate; E2 encodes the MIR of a2lfile only and the in-tree a2lmacros is not even linked by the lock file - a second crate's MIR was not brought up (DESIGN.md section 4)",
     "C04": "grammar conformance of ~185 generated parsers against the spec DSL is grammar-driven enumeration with concrete runs; the solver has nothing to decide and neither engine reaches a whole load (DESIGN.md section 4 C04)",
     "C20": "relational equivalence of two 36k-line generated programs over all inputs is far outside both engines; the cheap decision (normalise and diff token streams) is not solver-based (DESIGN.md section 4 C20)",
 }
